@@ -542,12 +542,14 @@ def run(chk: Check):
     rule_lookahead_cover(chk, ir)
     rule_column_unit(chk)
     rule_result_span(chk, ir)
-    from .c02 import rule_x7
+    from .c02 import rule_x7, rule_path_literal_gate, rule_path_literal_wrap
     rule_x7(chk)
+    rule_path_literal_gate(chk)   # a plain string literal must stay a Constant
+    rule_path_literal_wrap(chk)
     # Tree equality with CPython rests on the token stream and on node well-formedness: the rule sets of C04 (ASDL shape,
     # contexts, locations), C08 (token text/positions) and C09 (lexical agreement with CPython) are necessary conditions of
     # C01 as well and are evaluated here under their own rule ids.
-    tr.feed(chk, {"S1-list-field": "S1-list-field", "S1-field-kind": "S1-field-kind", "S2-required": "S2-required",
+    tr.feed(chk, {"S1-list-field": "S1-list-field", "S1-field-kind": "S1-field-kind", "S1-starred-position": "S1-starred-position", "S2-required": "S2-required",
                   "S3-ctx": "S3-ctx", "S4-location": "S4-location", "S1-joinedstr-bytes": "S1-joinedstr-bytes"}, live_key)
     from . import c08, c09
     from .. import constfold
